@@ -132,6 +132,31 @@ func runC20(c *Ctx) {
 				if _, isSl := dst.(*ssa.Slice); isSl {
 					bad = "the old contents are not copied to offset 0 of the new block"
 				}
+				// ... which already has its final length: copy moves min(len(dst), len(src)) bytes
+				if da, isLoad := ir.IsLoad(dst); isLoad {
+					stores, bare := lastStoresBefore(cs.In, ir.Resolve(da))
+					okLen := !bare || isFreshOfSize(c, ir.Resolve(da), fn)
+					for _, st := range stores {
+						switch x := ir.Resolve(st.Val).(type) {
+						case *ssa.Slice:
+							if x.High == nil || !isSizeLike(fn, x.High) {
+								okLen = false
+							}
+						case *ssa.MakeSlice:
+							if !isSizeLike(fn, x.Len) {
+								okLen = false
+							}
+						default:
+							okLen = false
+						}
+					}
+					if len(stores) == 0 && !isFreshOfSize(c, ir.Resolve(da), fn) {
+						okLen = false
+					}
+					if !okLen {
+						bad = "the old contents are copied at " + c.Pos(cs.In) + " into a block that does not have its final length yet: copy is limited by the destination's current (stale, pooled) length and the tail of the contents is lost"
+					}
+				}
 				continue
 			}
 			nMore++
@@ -444,4 +469,33 @@ func lastStoresBefore(at ssa.Instruction, addr ssa.Value) (stores []*ssa.Store, 
 	}
 	walk(b, idx)
 	return
+}
+
+// isSizeLike: v is the function's size argument or len(old)+len(more).
+func isSizeLike(fn *ssa.Function, v ssa.Value) bool {
+	r := ir.Resolve(v)
+	for _, p := range fn.Params {
+		if r == ssa.Value(p) && p.Type().String() == "int" {
+			return true
+		}
+	}
+	if b, ok := r.(*ssa.BinOp); ok && b.Op == token.ADD {
+		_, l1 := ir.IsLenOf(ir.Resolve(b.X))
+		_, l2 := ir.IsLenOf(ir.Resolve(b.Y))
+		return l1 && l2
+	}
+	return false
+}
+
+// isFreshOfSize: the pointer is the result of this allocator's Malloc(size-like).
+func isFreshOfSize(c *Ctx, ptr ssa.Value, fn *ssa.Function) bool {
+	call, ok := ptr.(*ssa.Call)
+	if !ok {
+		return false
+	}
+	name := c.P.CalleeName(&call.Call)
+	if !strings.HasSuffix(name, ").Malloc") {
+		return false
+	}
+	return isSizeLike(fn, call.Call.Args[len(call.Call.Args)-1])
 }
